@@ -189,6 +189,56 @@ Proof.
   destruct (is_data_pred t k); simpl; split; try (f_equal; assumption); assumption.
 Qed.
 
+(* ---- internal/callbacks.OnWithStreamHandle *)
+Lemma hand_range_firstn : forall A (hs : list A) xs, (List.length hs <= List.length xs)%nat ->
+  g_hand_range hs xs = Ok (firstn (List.length hs) xs).
+Proof.
+  induction hs as [|a hs IH]; intros xs H; simpl; [reflexivity|].
+  destruct xs as [|x xs]; simpl in H; [lia|]. rewrite IH by lia. reflexivity.
+Qed.
+
+Lemma copy_item_length : forall h n s, 2 <= n -> List.length (fst (copy_item h n s)) = Z.to_nat n.
+Proof.
+  intros h n s H. unfold copy_item. destruct (Z.ltb_spec n 2); [lia|]. simpl.
+  unfold fresh_handles. now rewrite map_length, seq_length.
+Qed.
+
+Lemma index_last_default : forall (l : list handle) d, l <> [] -> g_index l (glen l - 1) = Ok (List.last l d).
+Proof.
+  intros l d Hl. rewrite index_last. unfold last_opt.
+  destruct l as [|a l]; [congruence|]. clear Hl. cbn [List.length]. replace (S (List.length l) - 1)%nat with (List.length l) by lia.
+  revert a. induction l as [|b l IH]; intros a; [reflexivity|]. cbn [List.length nth_error]. rewrite IH. reflexivity.
+Qed.
+
+(* the translated function hands every handler exactly one copy, in order, and lets the last copy
+   continue: it IS the model's on_with_stream_handle (callback_copies_have_one_consumer is about it), for
+   every number of handlers, every stream and every store; it never panics *)
+Theorem gen_on_with_stream_handle_agrees : forall (hs : list unit) h s,
+  Gen.AcctCode.on_with_stream_handle hs h s = Ok (StreamAcct.on_with_stream_handle (List.length hs) h s).
+Proof.
+  intros hs h s.
+  first [ reflexivity |
+    unfold Gen.AcctCode.on_with_stream_handle, on_with_stream_handle, g_cpy;
+    destruct hs as [|u hs];
+    [ reflexivity
+    | (* whatever comparison the source uses, it must decide len(handlers) = 0 *)
+      match goal with |- (if ?c then _ else _) = _ => assert (Hc : c = false) by (unfold glen; cbn [List.length]; lia); rewrite Hc end;
+      replace (glen (u :: hs) + 1) with (Z.of_nat (List.length (u :: hs) + 1)) by (unfold glen; lia);
+      pose proof (copy_item_length h (Z.of_nat (List.length (u :: hs) + 1)) s ltac:(cbn [List.length]; lia)) as Hlen;
+      destruct (copy_item h (Z.of_nat (List.length (u :: hs) + 1)) s) as [cs s1]; cbn [fst] in Hlen;
+      rewrite Nat2Z.id in Hlen;
+      rewrite hand_range_firstn by lia; cbn [res_bind];
+      rewrite (index_last_default cs h) by (intro E; rewrite E in Hlen; cbn [List.length] in Hlen; lia);
+      cbn [res_bind]; rewrite removelast_firstn_len, Hlen;
+      cbn [List.length]; replace (Init.Nat.pred (S (List.length hs) + 1)) with (S (List.length hs)) by lia;
+      reflexivity ] ].
+Qed.
+
+Example gen_callback_copies_two_handlers :
+  Gen.AcctCode.on_with_stream_handle [tt; tt] 0%N (init_store 0%N)
+  = Ok (3%N, [1%N; 2%N], {| s_next := 4%N; s_open := [1%N; 2%N; 3%N]; s_log := [3%Z]; s_hist := [HCopy 0%N [1%N; 2%N; 3%N]; HFresh 0%N] |}).
+Proof. vm_compute. reflexivity. Qed.
+
 (* ---- consequences: the theorems of Props/C19.v about one task hold of the translated code *)
 From Eino Require Import Proofs.StreamAcct.
 
